@@ -11,7 +11,10 @@ package main
 //
 // Case line (see lean/StorageModel/Tx/Wire.lean for the grammar):
 //
-//	E nP reg* nC reg* txl [I nIxP ixreg* nIxC ixreg*] T ntx tx*
+//	E nP reg* nC reg* txl [I nIxP ixreg* nIxC ixreg*] [D nD reg* nIxD ixreg*] T ntx tx*
+//
+// D section: registrations and custom index-stage constraints of the SECOND child store D (path ["ext2"], field
+// grade), registered on the parent after C; an entity may have data in C, in D, in both.
 //
 // ixreg = nveto (stage id)*: a custom boltz.Constraint registered with AddConstraint on the parent / child
 // store (after the built-in indexes) which calls ctx.ErrHolder.SetError in ProcessBeforeUpdate (b),
@@ -89,10 +92,102 @@ func txLower(c byte) byte {
 	return c
 }
 
+// one entry of the flattened tags value: path from the top-level map, leaf kind (s t f n u S m l)
+type txTagSeg struct {
+	isIdx bool
+	key   string
+	idx   int
+}
+type txTag struct {
+	path []txTagSeg
+	leaf byte
+	str  string
+}
+
 type txFields struct {
 	name  string
 	roles []string
 	ref   *string
+	tags  []txTag
+}
+
+// txTagsValue rebuilds the Go value (map[string]interface{} with nested maps and []interface{} lists) from
+// the flattened entries.  Leaf u = uint16(80), S = []string{"b","c"}: types TypedBucket.setMarshaled has no case for.
+func txTagsValue(tags []txTag) map[string]interface{} {
+	if len(tags) == 0 {
+		return nil
+	}
+	type node struct {
+		leaf     interface{}
+		isLeaf   bool
+		isList   bool
+		children map[string]*node
+		order    []string
+	}
+	root := &node{children: map[string]*node{}}
+	for _, t := range tags {
+		cur := root
+		for _, sg := range t.path {
+			name := sg.key
+			if sg.isIdx {
+				name = strconv.Itoa(sg.idx)
+				cur.isList = true
+			}
+			if cur.children == nil {
+				cur.children = map[string]*node{}
+			}
+			nx, ok := cur.children[name]
+			if !ok {
+				nx = &node{}
+				cur.children[name] = nx
+				cur.order = append(cur.order, name)
+			}
+			cur = nx
+		}
+		switch t.leaf {
+		case 's':
+			cur.leaf, cur.isLeaf = t.str, true
+		case 't':
+			cur.leaf, cur.isLeaf = true, true
+		case 'f':
+			cur.leaf, cur.isLeaf = false, true
+		case 'n':
+			cur.leaf, cur.isLeaf = nil, true
+		case 'u':
+			cur.leaf, cur.isLeaf = uint16(80), true
+		case 'S':
+			cur.leaf, cur.isLeaf = []string{"b", "c"}, true
+		case 'm':
+			cur.children = map[string]*node{}
+		case 'l':
+			cur.isList = true
+		default:
+			panic("bad tag leaf")
+		}
+	}
+	var build func(n *node) interface{}
+	build = func(n *node) interface{} {
+		if n.isLeaf {
+			return n.leaf
+		}
+		if n.isList {
+			l := make([]interface{}, len(n.children))
+			for name, c := range n.children {
+				i, _ := strconv.Atoi(name)
+				if i >= len(l) {
+					panic("tags list indexes not contiguous")
+				}
+				l[i] = build(c)
+			}
+			return l
+		}
+		m := map[string]interface{}{}
+		for name, c := range n.children {
+			m[name] = build(c)
+		}
+		return m
+	}
+	return build(root).(map[string]interface{})
 }
 
 type txStep struct {
@@ -120,6 +215,8 @@ type txCase struct {
 	regsP, regsC []txReg
 	txl          int
 	ixP, ixC     [][]txIxVeto
+	regsD        []txReg
+	ixD          [][]txIxVeto
 	txs          []txTx
 }
 
@@ -220,6 +317,22 @@ func (p *txTokens) reg() txReg {
 	panic("bad reg")
 }
 
+func (p *txTokens) ixRegs() [][]txIxVeto {
+	n := p.nat()
+	regs := make([][]txIxVeto, n)
+	for i := range regs {
+		m := p.nat()
+		for j := 0; j < m; j++ {
+			st := p.next()
+			if len(st) != 1 || !strings.Contains("badBAD", st) {
+				panic("bad index stage")
+			}
+			regs[i] = append(regs[i], txIxVeto{stage: st[0], id: p.str()})
+		}
+	}
+	return regs
+}
+
 func (p *txTokens) fields() txFields {
 	f := txFields{name: p.str()}
 	n := p.nat()
@@ -230,6 +343,29 @@ func (p *txTokens) fields() txFields {
 	if r != "~" {
 		s := txParseStr(r)
 		f.ref = &s
+	}
+	if p.i < len(p.t) && p.t[p.i] == "G" {
+		p.next()
+		n := p.nat()
+		for i := 0; i < n; i++ {
+			var t txTag
+			m := p.nat()
+			for j := 0; j < m; j++ {
+				switch p.next() {
+				case "k":
+					t.path = append(t.path, txTagSeg{key: p.str()})
+				case "i":
+					t.path = append(t.path, txTagSeg{isIdx: true, idx: p.nat()})
+				default:
+					panic("bad tag segment")
+				}
+			}
+			t.leaf = p.next()[0]
+			if t.leaf == 's' {
+				t.str = p.str()
+			}
+			f.tags = append(f.tags, t)
+		}
 	}
 	return f
 }
@@ -286,23 +422,16 @@ func txParseCase(line string) *txCase {
 	c.txl = p.nat()
 	t := p.next()
 	if t == "I" {
-		ixRegs := func() [][]txIxVeto {
-			n := p.nat()
-			regs := make([][]txIxVeto, n)
-			for i := range regs {
-				m := p.nat()
-				for j := 0; j < m; j++ {
-					st := p.next()
-					if len(st) != 1 || !strings.Contains("badBAD", st) {
-						panic("bad index stage")
-					}
-					regs[i] = append(regs[i], txIxVeto{stage: st[0], id: p.str()})
-				}
-			}
-			return regs
+		c.ixP = p.ixRegs()
+		c.ixC = p.ixRegs()
+		t = p.next()
+	}
+	if t == "D" {
+		n := p.nat()
+		for i := 0; i < n; i++ {
+			c.regsD = append(c.regsD, p.reg())
 		}
-		c.ixP = ixRegs()
-		c.ixC = ixRegs()
+		c.ixD = p.ixRegs()
 		t = p.next()
 	}
 	if t != "T" {
@@ -333,6 +462,7 @@ type txThing struct {
 	Name  string
 	Roles []string
 	Ref   *string
+	Tags  map[string]interface{}
 }
 
 func (e *txThing) GetId() string         { return e.Id }
@@ -342,6 +472,12 @@ func (e *txThing) GetEntityType() string { return "things" }
 type txExt struct {
 	txThing
 	Rank string
+}
+
+// entity of the second child store
+type txExt2 struct {
+	txThing
+	Grade string
 }
 
 var errTxLoad = errors.New("injected load error")
@@ -382,6 +518,7 @@ type txRun struct {
 	db     *boltz.DbImpl
 	parent *boltz.BaseStore[*txThing]
 	child  *boltz.BaseStore[*txExt]
+	child2 *boltz.BaseStore[*txExt2]
 	cas    *txCase
 
 	mu       sync.Mutex
@@ -413,6 +550,7 @@ func (s *txPStrategy) FillEntity(e *txThing, b *boltz.TypedBucket) {
 	e.Name = b.GetStringOrError("name")
 	e.Ref = b.GetString("ref")
 	e.Roles = b.GetStringList("roles")
+	e.Tags = b.GetMap("tags")
 	if n > 0 && s.r.fault == fmt.Sprintf("lP%d", n) {
 		b.SetError(errTxLoad)
 	}
@@ -423,6 +561,8 @@ func (s *txPStrategy) PersistEntity(e *txThing, ctx *boltz.PersistContext) {
 	ctx.SetString("name", e.Name)
 	ctx.SetStringP("ref", e.Ref)
 	ctx.SetStringList("roles", e.Roles)
+	// nothing is injected for the tags: what the typed-bucket setters make of the VALUE is the test
+	ctx.SetMap("tags", e.Tags)
 	if s.r.fault == fmt.Sprintf("pP%d", n) {
 		ctx.Bucket.SetError(errTxPersist)
 	}
@@ -454,6 +594,20 @@ func (s *txCStrategy) PersistEntity(e *txExt, ctx *boltz.PersistContext) {
 	}
 }
 
+// strategy of the second child store: not an injection point itself (it calls the parent's strategy, which is)
+type txDStrategy struct{ r *txRun }
+
+func (s *txDStrategy) NewEntity() *txExt2 { return new(txExt2) }
+func (s *txDStrategy) FillEntity(e *txExt2, b *boltz.TypedBucket) {
+	_, err := s.r.parent.LoadEntity(b.Tx(), e.Id, &e.txThing)
+	b.SetError(err)
+	e.Grade = b.GetStringWithDefault("grade", "")
+}
+func (s *txDStrategy) PersistEntity(e *txExt2, ctx *boltz.PersistContext) {
+	s.r.parent.GetEntityStrategy().PersistEntity(&e.txThing, ctx.GetParentContext())
+	ctx.SetString("grade", e.Grade)
+}
+
 // ---------------------------------------------------------------- rendering
 
 func txRenderFields(t *txThing) string {
@@ -481,6 +635,8 @@ func txRenderEnt(e boltz.Entity) string {
 		return "P:" + txAbbr(v.Id) + "/" + txRenderFields(v)
 	case *txExt:
 		return "C:" + txAbbr(v.Id) + "/" + txRenderFields(&v.txThing) + "/" + txAbbr(v.Rank)
+	case *txExt2:
+		return "D:" + txAbbr(v.Id) + "/" + txRenderFields(&v.txThing) + "/" + txAbbr(v.Grade)
 	}
 	return fmt.Sprintf("?%T", e)
 }
@@ -749,10 +905,41 @@ func txOpen(c *txCase, dir string) *txRun {
 		},
 	})
 
+	// the second child store, registered on the parent after the first
+	r.child2 = boltz.NewBaseStore(boltz.StoreDefinition[*txExt2]{
+		EntityStrategy: &txDStrategy{r: r},
+		BasePath:       []string{"ext2"},
+		Parent:         r.parent,
+		ParentMapper: func(e boltz.Entity) boltz.Entity {
+			if x, ok := e.(*txExt2); ok {
+				return &x.txThing
+			}
+			return e
+		},
+		EntityNotFoundF: func(id string) error { return &txNotFound{id: id} },
+	})
+	r.child2.InitImpl(r.child2)
+	r.parent.GrantSymbols(r.child2)
+	r.child2.AddSymbol("grade", ast.NodeTypeString)
+	r.parent.RegisterChildStoreStrategy(&boltz.ChildStoreUpdateHandler[*txThing, *txExt2]{
+		Store: r.child2,
+		Mapper: func(ctx boltz.MutateContext, p *txThing) (*txExt2, bool) {
+			r.mapperDepth++
+			x, found, _ := r.child2.FindById(ctx.Tx(), p.Id)
+			r.mapperDepth--
+			if !found {
+				return nil, false
+			}
+			x.txThing = *p
+			return x, true
+		},
+	})
+
 	err = db.Update(nil, func(ctx boltz.MutateContext) error {
 		h := &txErrHolder{}
 		r.parent.InitializeIndexes(ctx.Tx(), h)
 		r.child.InitializeIndexes(ctx.Tx(), h)
+		r.child2.InitializeIndexes(ctx.Tx(), h)
 		return h.err
 	})
 	if err != nil {
@@ -765,6 +952,10 @@ func txOpen(c *txCase, dir string) *txRun {
 	}
 	for i, vs := range c.ixC {
 		r.child.AddConstraint(&txIxConstraint{r: r, store: 'C', idx: i, vetoes: vs})
+	}
+	txRegister[*txExt2](r, r.child2, 'D', c.regsD)
+	for i, vs := range c.ixD {
+		r.child2.AddConstraint(&txIxConstraint{r: r, store: 'D', idx: i, vetoes: vs})
 	}
 	for i := 0; i < c.txl; i++ {
 		i := i
@@ -849,6 +1040,8 @@ func txErrKind(err error) string {
 		return "err:exists"
 	case strings.Contains(msg, "does not allow null or empty"):
 		return "err:null"
+	case strings.Contains(msg, "unsupported type"):
+		return "err:unsupported"
 	case strings.Contains(msg, "line:") && strings.Contains(msg, "column:"):
 		return "err:parse"
 	}
@@ -865,7 +1058,7 @@ func (r *txRun) runOp(ctx boltz.MutateContext, s txStep) error {
 	r.fillP, r.fillC, r.persP, r.persC = 0, 0, 0, 0
 	defer func() { r.fault = "-" }()
 	thing := func() txThing {
-		return txThing{Id: s.id, Name: s.f.name, Roles: append([]string(nil), s.f.roles...), Ref: s.f.ref}
+		return txThing{Id: s.id, Name: s.f.name, Roles: append([]string(nil), s.f.roles...), Ref: s.f.ref, Tags: txTagsValue(s.f.tags)}
 	}
 	switch s.op {
 	case "cr":
@@ -873,16 +1066,25 @@ func (r *txRun) runOp(ctx boltz.MutateContext, s txStep) error {
 			t := thing()
 			return r.parent.Create(ctx, &t)
 		}
+		if s.store == 'D' {
+			return r.child2.Create(ctx, &txExt2{txThing: thing(), Grade: s.rank})
+		}
 		return r.child.Create(ctx, &txExt{txThing: thing(), Rank: s.rank})
 	case "up":
 		if s.store == 'P' {
 			t := thing()
 			return r.parent.Update(ctx, &t, nil)
 		}
+		if s.store == 'D' {
+			return r.child2.Update(ctx, &txExt2{txThing: thing(), Grade: s.rank}, nil)
+		}
 		return r.child.Update(ctx, &txExt{txThing: thing(), Rank: s.rank}, nil)
 	case "de":
 		if s.store == 'P' {
 			return r.parent.DeleteById(ctx, s.id)
+		}
+		if s.store == 'D' {
+			return r.child2.DeleteById(ctx, s.id)
 		}
 		return r.child.DeleteById(ctx, s.id)
 	case "dw":
@@ -895,6 +1097,9 @@ func (r *txRun) runOp(ctx boltz.MutateContext, s txStep) error {
 		}
 		if s.store == 'P' {
 			return r.parent.DeleteWhere(ctx, q)
+		}
+		if s.store == 'D' {
+			return r.child2.DeleteWhere(ctx, q)
 		}
 		return r.child.DeleteWhere(ctx, q)
 	}
